@@ -838,7 +838,21 @@ func (e *SpecEnv) goCall(fn *ssa.Function, args []Expr, cur, old *State) Val {
 	if e.f.depth >= maxInlineDepth {
 		return e.fail("spec call depth exceeded")
 	}
-	if len(e.bound) > 0 {
+	shadow := false
+	if spec := vc.eng.specs.funcSpec(fn); spec != nil && spec.Shadow && stateIndependent(fn) {
+		shadow = true
+		bound := false
+		for _, v := range vals {
+			if vc.hasBound(v.L...) {
+				bound = true
+			}
+		}
+		if bound {
+			// under a quantifier: the shadow function (defined at every inlined call)
+			return ufResult(e.f, fmt.Sprintf("pure|%s|%d", fnDisplayName(fn), 0), vals, fn.Signature.Results().At(0).Type())
+		}
+	}
+	if len(e.bound) > 0 && !shadow {
 		return e.fail("call of Go function %s under a quantifier is not supported (use a lemma with leading forall)", fn.Name())
 	}
 	vc.noSafe++
@@ -851,6 +865,10 @@ func (e *SpecEnv) goCall(fn *ssa.Function, args []Expr, cur, old *State) Val {
 	vc.classes = saved
 	vc.noSafe--
 	vc.inlined[fnDisplayName(fn)+" (in contract)"] = true
+	if shadow && len(res) == 1 && len(res[0].L) == 1 {
+		u := ufResult(e.f, fmt.Sprintf("pure|%s|%d", fnDisplayName(fn), 0), vals, res[0].T)
+		vc.fact(Eq(u.one(), res[0].one()))
+	}
 	if len(res) == 0 {
 		return e.fail("call of %s has no result", fn.Name())
 	}
